@@ -2,6 +2,7 @@ package desync
 
 import (
 	"errors"
+	"fmt"
 	"io"
 	"io/ioutil"
 	"os"
@@ -266,6 +267,10 @@ func (l *sparseFileLoader) loadChunk(i int) error {
 	b, err := c.Data()
 	if err != nil {
 		return err
+	}
+	// Positions in the file come from the index, the chunk has to have the size recorded there
+	if l.chunks[i].Size != uint64(len(b)) {
+		return fmt.Errorf("unexpected size for chunk %s", l.chunks[i].ID.String())
 	}
 
 	f, err := os.OpenFile(l.name, os.O_RDWR, 0666)
